@@ -127,7 +127,7 @@ func main() {
 			if t == "thorough" {
 				return 400000
 			}
-			return 12000
+			return 36000
 		},
 		Floor: func(t string) int {
 			if t == "thorough" {
